@@ -636,6 +636,8 @@ impl Prop for CapProp {
                 21..=23 => 5,
                 24..=31 => 6,
                 32..=39 => 7,
+                40..=45 => 8,
+                46..=51 => 9,
                 _ => 0,
             }
         } else {
@@ -650,6 +652,11 @@ impl Prop for CapProp {
                 4 => crate::gen::gen_long_run(rng),
                 5 => crate::gen::gen_big_gap(rng),
                 6 => crate::gen::gen_lopsided(rng),
+                8 => {
+                    let bits = 16 + rng.below(2) as u32;
+                    crate::gen::gen_long_anchor_run_sized(rng, bits)
+                }
+                9 => crate::gen::gen_big_edited_copy(rng),
                 _ => crate::gen::gen_composite(rng),
             };
             seq.old_range = (0, o.len());
@@ -662,8 +669,8 @@ impl Prop for CapProp {
                 1 => *rng.pick(&[crate::gen::Alg::Myers, crate::gen::Alg::Patience]),
                 2 => crate::gen::Alg::Lcs,
                 4 => *rng.pick(&[crate::gen::Alg::Myers, crate::gen::Alg::Patience, crate::gen::Alg::Myers]),
-                5 => crate::gen::Alg::Patience,
-                6 | 7 => *rng.pick(&[crate::gen::Alg::Myers, crate::gen::Alg::Patience]),
+                5 | 8 => crate::gen::Alg::Patience,
+                6 | 7 | 9 => *rng.pick(&[crate::gen::Alg::Myers, crate::gen::Alg::Patience]),
                 _ => *rng.pick(&crate::gen::ALGS),
             };
             // a quadratic table is only affordable for moderate sizes
@@ -673,9 +680,27 @@ impl Prop for CapProp {
             // the 16-bit id question only exists behind the text builder
             entry = match giant {
                 1 => CapEntry::TextLines,
-                4 | 7 if rng.chance(1, 2) => CapEntry::TextLines,
+                4 | 7 | 8 if rng.chance(1, 2) => CapEntry::TextLines,
                 _ => CapEntry::Slices,
             };
+            // half of the giants that go through the capture functions sit in
+            // sub-ranges that do not start at index 0 (plain or far lookups)
+            if entry == CapEntry::Slices && rng.chance(1, 2) {
+                let (po, pn) = (1 + rng.usize(7), 1 + rng.usize(7));
+                let mut o: Vec<u32> = (0..po as u32).map(|i| 3_000_000 + i).collect();
+                let mut n: Vec<u32> = (0..pn as u32).map(|i| 4_000_000 + i).collect();
+                o.extend_from_slice(&seq.old);
+                n.extend_from_slice(&seq.new);
+                // (and a little unrelated material behind the ranges)
+                seq.old_range = (po, o.len());
+                seq.new_range = (pn, n.len());
+                o.push(5_000_000);
+                n.push(5_000_001);
+                seq.old = o;
+                seq.new = n;
+                seq.index = if rng.chance(1, 3) { crate::gen::IndexKind::Far } else { crate::gen::IndexKind::Slice };
+                entry = CapEntry::Ranges;
+            }
         }
         if entry == CapEntry::Script && seq.n() + seq.m() > 80 {
             // scripts exercise Compact, small inputs with repeats do that best
